@@ -6,7 +6,7 @@ BASELINE = json.load(open('/root/.vp/BASELINE.json'))
 
 # id -> (category, technique, level text, level note, design ref)
 CHECKS = {
- "C01": ("exploration", "reference-model monitor over a recorded call log (round trip through lexer and sequential iterator) + aliasing snapshots",
+ "C01": ("exploration", "reference-model monitor over a recorded call log (round trip through lexer and sequential iterator, unfiltered and with messages skipped by a selection) + aliasing snapshots",
          "Held on N seeded (workload, configuration) executions of the real writer/readers; the evidence lists how many and of what shape. Exploration is the right level: the property quantifies over unbounded inputs x configurations and the code is single-threaded, so reach comes from input diversity.",
          "Call log recorded by the harness driver is ground truth; custom compression via lexer only; generator bounds in DESIGN.md section 3/C01.", "3/C01"),
  "C02": ("exploration", "differential monitor: index-based reads, Info-driven random access and metadata callbacks against the sequential scan and the call log",
@@ -33,7 +33,7 @@ CHECKS = {
  "C09": ("fault_enumeration", "exhaustive truncation at every byte offset, prefix/completeness oracle over lexer and scan iterator",
          "Every cut position of every enumerated small file x 3 reader configurations; boundary neighbourhoods plus seeded cuts of 1-2 MiB files holding records above 1 MiB and chunks above 64 KiB.",
          "Record boundaries from the reference decoder.", "3/C09"),
- "C10": ("exploration", "isolated child process with address-space cap, CPU watchdog, per-call journal and allocation accounting over structured mutations and random bytes",
+ "C10": ("exploration", "isolated child process with address-space cap, CPU watchdog (budget grows with bytes allocated), per-call journal and allocation accounting over structured mutations (hostile constants, off-by-one, values swapped between records) and random bytes",
          "Every public decode entry point on tens of thousands of hostile inputs per run; panics, process deaths, CPU overruns and single allocations >= 2^31 (or above configured limits) are violations.",
          "Inputs <= 64 KiB; allocation attribution via runtime.MemProfile (rate 1) on inputs that allocate >= 2 GiB in one call.", "3/C10"),
  "C11": ("exploration", "differential monitor over offset-free projections of all reader outputs: reference-encoded file vs the same content with unknown records and trailing bytes",
@@ -43,16 +43,16 @@ CHECKS = {
          "Exhaustive over chunk partitions of a 6-message content, all 720 summary-group permutations, plus random layouts.",
          "Every layout is verified spec-valid by the reference validator before use.", "3/C12"),
  "C13": ("exploration", "hash comparison across map orders, processes (GOMAXPROCS 1/2/4/16) and concurrent goroutines under the Go race detector",
-         "SHA-256 of outputs compared across runs; -race binary with 16 goroutines of independent writers/readers, golden digests, race log scanned.",
+         "SHA-256 of outputs compared across runs (message-level calls, and chunk-level copies through WriteChunkWithIndexes); -race binary with 16 goroutines of independent writers/readers, golden digests, race log scanned.",
          "Race detector reports only races on interleavings that occurred.", "3/C13"),
- "C14": ("fault_enumeration", "exhaustive enumeration of failing sink writes (4 failure modes per write index) and failing/short/long attachment sources",
-         "Every sink write of every enumerated (workload, configuration) is failed in four ways; the call that hit it must report an error and accepted bytes stay a prefix.",
+ "C14": ("fault_enumeration", "exhaustive enumeration of failing sink writes (6 failure modes per write index) and failing/short/long attachment sources (several error identities, error alone or with the last bytes)",
+         "Every sink write of every enumerated (workload, configuration) is failed in six ways (no bytes / short count / all bytes accepted + error, once or permanently); the call that hit it must report an error and accepted bytes stay a prefix.",
          "Sinks honour the io.Writer contract; write pattern deterministic (checked).", "3/C14"),
- "C15": ("fault_enumeration", "exhaustive injection of a read error at every byte position (sticky and once), failing seeks, and five delivery schedules, over eight reader configurations",
-         "Every byte position of every enumerated file x 2 fault modes x 8 readers.",
+ "C15": ("fault_enumeration", "exhaustive injection of a read error at every byte position and at the end-of-file position (sticky and once; two further calls after a permanent failure), failing seeks, and five delivery schedules, over eight reader configurations",
+         "Every byte position of every enumerated file (0..len inclusive) x 2 fault modes x 8 readers; after a permanent failure the reader is asked twice more and may neither return a record nor a clean end.",
          "'Clean EOF' = errors.Is(err, io.EOF).", "3/C15"),
  "C16": ("exploration", "differential monitor across implementations: Go writer -> Python readers and Python writer -> Go readers, compared with the call log",
-         "Files exchanged in both directions through /verif/py/interop.py running the repository's Python library (fresh reader per query and one reused SeekingReader instance).",
+         "Files exchanged in both directions through /verif/py/interop.py running the repository's Python library (fresh reader per query and one reused SeekingReader instance; Go follows every metadata/attachment index Python wrote).",
          "Only uncompressed files (Python codecs absent); system python3.", "3/C16"),
  "C17": ("exploration", "exhaustive replay of the finite conformance matrix through the two Go tools built from the working tree, inputs pinned by SHA-256",
          "All 416 vectors: read tool on regenerated binaries (pinned to LFS SHA-256), write tool on all descriptions.",
